@@ -46,6 +46,9 @@ type Action struct {
 	Arg    string `json:"arg,omitempty"`  // builtin argument
 	N      int    `json:"n,omitempty"`    // sleep µs / raw read size
 	Data   string `json:"data,omitempty"` // raw write payload
+	// DeadlineUs > 0: the reply is sent under a context with this (generous)
+	// deadline on the simulated clock; it must not leak into later replies.
+	DeadlineUs int `json:"deadline_us,omitempty"`
 }
 
 // Script is what the test dispatcher does for one call.
@@ -188,6 +191,10 @@ func (d *testIface) VarlinkDispatch(ctx context.Context, c varlink.Call, methodn
 	}
 	var ret error
 	for i, a := range sc.Actions {
+		ctx := ctx
+		if a.DeadlineUs > 0 {
+			ctx = sim.NewCtx(time.Duration(a.DeadlineUs) * time.Microsecond)
+		}
 		switch a.Op {
 		case "reply":
 			c.Continues = a.Continues
